@@ -716,6 +716,8 @@ func (c *CreateViewStatement) Format(opts FormatOptions) string {
 
 	if c.WithOption != "" {
 		sb.WriteString(f.clauseSep())
+		sb.WriteString(f.kw("WITH"))
+		sb.WriteString(" ")
 		sb.WriteString(f.kw(c.WithOption))
 	}
 
@@ -1153,7 +1155,15 @@ func formatWith(w *WithClause, f *formatter) string {
 		if len(cte.Columns) > 0 {
 			s += "(" + strings.Join(cte.Columns, ", ") + ") "
 		}
-		s += f.kw("AS") + " ("
+		s += f.kw("AS") + " "
+		if cte.Materialized != nil {
+			if *cte.Materialized {
+				s += f.kw("MATERIALIZED") + " "
+			} else {
+				s += f.kw("NOT MATERIALIZED") + " "
+			}
+		}
+		s += "("
 		if qs, ok := cte.Statement.(Formatter); ok {
 			s += qs.Format(nestedOptions(f.opts))
 		} else {
